@@ -58,7 +58,7 @@ repository's own 295 tests, run the check, and revert; nothing of this is ever c
 ### 8.1 Changes written by independent sub-agents (`seeded/<ID>-<n>/`)
 
 Each sub-agent was given only the text of one property and its own scratch worktree (nothing from
-/verif) and asked for changes that compile, keep the repository tests passing, break the property,
+/verif; the briefs of the rounds are kept in `docs/briefs/`) and asked for changes that compile, keep the repository tests passing, break the property,
 and need something specific to manifest. Every change was confirmed here before it was kept: the
 repository tests pass with it, its demonstration fails with it and passes without it
 (`meta.json` records the commands). What each needs in order to manifest is in its `NOTES.md`.
